@@ -61,9 +61,8 @@ theorem frStep_getD {β : Type} (o : Ops α) (inst : Inst α β) (k t : α) (pos
     (hv : v < inst.mods.length) :
     ∃ d : Pt α, (frStep o inst k t pos).getD v pzero =
       moveOne o inst.W inst.H t (modFixed inst v) (pos.getD v pzero) d := by
-  unfold frStep
-  refine ⟨_, ?_⟩
-  rw [getD_map_range _ _ _ hv]
+  simp only [frStep]
+  exact ⟨_, getD_map_range _ _ _ hv _⟩
 
 theorem frStep_length {β : Type} (o : Ops α) (inst : Inst α β) (k t : α) (pos : List (Pt α)) :
     (frStep o inst k t pos).length = inst.mods.length := by
@@ -116,11 +115,10 @@ theorem frLoop_clamped {β : Type} (o : Ops α) (inst : Inst α β) (k dt : α) 
 theorem initPos_length {β : Type} (inst : Inst α β) : (initPos inst).length = inst.mods.length := by
   simp [initPos]
 
-theorem initPos_getD {β : Type} (inst : Inst α β) (v : Nat) (m : Mod α β) (hm : inst.mods[v]? = some m) :
-    (initPos inst).getD v pzero = match m.center with
-      | some c => psub c (pdiv (inst.W, inst.H) two)
-      | none => pzero := by
-  simp [initPos, List.getD_eq_getElem?_getD, hm]
+theorem initPos_getD {β : Type} (inst : Inst α β) (v : Nat) (m : Mod α β) (c : Pt α)
+    (hm : inst.mods[v]? = some m) (hc : m.center = some c) :
+    (initPos inst).getD v pzero = psub c (pdiv (inst.W, inst.H) two) := by
+  simp only [initPos, List.getD_eq_getElem?_getD, List.getElem?_map, hm, Option.map_some, Option.getD_some, hc]
 
 theorem writeCentres_mods {β : Type} (inst : Inst α β) (pos : List (Pt α)) (v : Nat) (m : Mod α β)
     (hm : inst.mods[v]? = some m) :
@@ -130,7 +128,7 @@ theorem writeCentres_mods {β : Type} (inst : Inst α β) (pos : List (Pt α)) (
     rcases List.getElem?_eq_some_iff.mp hm with ⟨h, _⟩; exact h
   have hm' : inst.mods[v] = m := by
     rcases List.getElem?_eq_some_iff.mp hm with ⟨_, h⟩; exact h
-  simp [writeCentres, List.getElem?_zipWith, hv, hm']
+  simp [writeCentres, hv, hm']
 
 theorem writeCentres_length {β : Type} (inst : Inst α β) (pos : List (Pt α)) :
     (writeCentres inst pos).mods.length = inst.mods.length := by
